@@ -27,6 +27,75 @@ type badReader struct{}
 
 func (badReader) Read(p []byte) (int, error) { return 0, fmt.Errorf("entropy source must not be read") }
 
+// sigObjectStable: every observer of a Signature object (Serialize, Export, ExportCompact, Verify, RecoverPublicKey,
+// IsEqual) leaves the object as it was and answers the same when asked again after the others have run.
+func sigObjectStable(sig *secp.Signature, hash []byte) string {
+	code := func() (c int) { // RecoveryCode panics on a signature without one
+		defer func() {
+			if recover() != nil {
+				c = 0xff
+			}
+		}()
+		return int(sig.RecoveryCode())
+	}
+	snap := func() string {
+		r, s := sig.R(), sig.S()
+		return scalarHex(&r) + "/" + scalarHex(&s) + "/" + strconv.Itoa(code())
+	}
+	g := secp.NewPrivateKey(scalarFromHex("01")).PubKey()
+	obs := []struct {
+		name string
+		f    func() string
+	}{
+		{"Serialize", func() string { return hx(sig.Serialize()) }},
+		{"Export", func() string {
+			if code() == 0xff {
+				return "-"
+			}
+			r, s, c := sig.Export()
+			return r.String() + "," + s.String() + "," + strconv.Itoa(int(c))
+		}},
+		{"ExportCompact", func() string {
+			if code() == 0xff {
+				return "-"
+			}
+			return hx(sig.ExportCompact(true, 27)) + hx(sig.ExportCompact(false, 0))
+		}},
+		{"Verify", func() string { return strconv.FormatBool(sig.Verify(hash, g)) }},
+		{"RecoverPublicKey", func() string {
+			if code() > 3 {
+				return "-"
+			}
+			pk, err := sig.RecoverPublicKey(hash)
+			if err != nil {
+				return "err " + errKind(err)
+			}
+			return pubXY(pk)
+		}},
+		{"IsEqual", func() string {
+			r, s := sig.R(), sig.S()
+			return strconv.FormatBool(sig.IsEqual(secp.NewSignature(&r, &s)))
+		}},
+	}
+	before := snap()
+	first := make([]string, len(obs))
+	for i, o := range obs {
+		first[i] = o.f()
+		if now := snap(); now != before {
+			return "OBJECT-CHANGED-BY-" + o.name + " " + before + " -> " + now
+		}
+	}
+	for i := len(obs) - 1; i >= 0; i-- {
+		if again := obs[i].f(); again != first[i] {
+			return "ANSWER-CHANGED-" + obs[i].name + " " + first[i] + " -> " + again
+		}
+	}
+	return ""
+}
+
+// long-lived private key object used by every `sign` operation of a run (its scalar is Set in place)
+var reuseSignKey = secp.NewPrivateKey(scalarFromHex("01"))
+
 func pubFromXY(xs, ys string) *secp.PublicKey {
 	return secp.NewPublicKey(fvFromHex(xs), fvFromHex(ys))
 }
@@ -55,6 +124,14 @@ func init() {
 			}
 			if !sig.Verify(hash, key.PubKey()) {
 				return "SELF-VERIFY-FAILED " + sigRSV(sig, true)
+			}
+			// a long-lived key object whose scalar earlier operations set to other values signs the same bytes
+			reuseSignKey.Key.Set(dk)
+			if lr := secp.Sign(reuseSignKey, hash); !bytes.Equal(lr.Serialize(), der) || !bytes.Equal(secp.SignCompact(reuseSignKey, hash, true), c1) {
+				return "DEPENDS-ON-KEY-OBJECT-HISTORY " + hx(lr.Serialize())
+			}
+			if m := sigObjectStable(sig, hash); m != "" {
+				return m
 			}
 			// the crypto.Signer front end: the digest is signed as given, whatever hash the options name and
 			// whatever the (unused) entropy source does; only Format selects the encoding
@@ -101,6 +178,9 @@ func init() {
 			if !pk.IsOnCurve() {
 				return "ok-OFF-CURVE " + pubXY(pk)
 			}
+			if m := sigObjectStable(sig, hash); m != "" {
+				return "ok " + pubXY(pk) + " " + m
+			}
 			return "ok " + pubXY(pk)
 		})
 	}
@@ -108,13 +188,20 @@ func init() {
 		v, _ := strconv.Atoi(a[2])
 		sig := secp.NewSignatureWithRecoveryCode(scalarFromHex(a[0]), scalarFromHex(a[1]), byte(v))
 		r, s, c := sig.Export()
+		if m := sigObjectStable(sig, bytesRepeat(0x5a, 32)); m != "" {
+			return m
+		}
 		return hx(be32(r)) + " " + hx(be32(s)) + " " + strconv.Itoa(int(c))
 	}
 	opImpl["export_compact"] = func(a []string) string {
 		v, _ := strconv.Atoi(a[2])
 		off, _ := strconv.Atoi(a[4])
 		sig := secp.NewSignatureWithRecoveryCode(scalarFromHex(a[0]), scalarFromHex(a[1]), byte(v))
-		return hx(sig.ExportCompact(a[3] == "1", byte(off)))
+		out := hx(sig.ExportCompact(a[3] == "1", byte(off)))
+		if m := sigObjectStable(sig, bytesRepeat(0x5a, 32)); m != "" {
+			return m
+		}
+		return out
 	}
 	opImpl["parse_compact"] = func(a []string) string {
 		b := unhx(a[0])
